@@ -50,12 +50,20 @@ namespace smt
         else
         { // we need to create a new slack variable..
             assert(sat->root_level());
+            // the rows of the tableau range over non-basic variables only: the basic variables of 'l' are replaced by their rows..
+            lin expr = l;
+            for (const auto &[v, c] : l.vars)
+                if (const auto at_v = tableau.find(v); at_v != tableau.cend())
+                {
+                    expr.vars.erase(v);
+                    expr += at_v->second->l * c;
+                }
             const var slack = new_var();
             exprs.emplace(s_expr, slack);
             c_bounds[lb_index(slack)] = {lb(l), TRUE_lit}; // we set the lower bound at the lower bound of the given linear expression..
             c_bounds[ub_index(slack)] = {ub(l), TRUE_lit}; // we set the upper bound at the upper bound of the given linear expression..
             vals[slack] = value(l);                        // we set the initial value of the new slack variable at the value of the given linear expression..
-            new_row(slack, l);                             // we add a new row into the tableau..
+            new_row(slack, expr);                          // we add a new row into the tableau..
             return slack;
         }
     }
